@@ -1,0 +1,5 @@
+//go:build !verif
+
+package file_storage
+
+func simYield(fs *FileStorage, point string) {}
